@@ -270,7 +270,113 @@ def run_members(chk, which):
     chk.extra["members_events"] = len(events)
 
 
+# ---- Compose at the level of variants (MC_Variants): {N} is the variant's name
+VARIANT_MENU = {
+    "v_unit": "{N}",
+    "v_newtype": "{N}(u32)",
+    "v_newtype_opt": "{N}(Option<String>)",
+    "v_struct": "{N} {{ first_field: u32, second: Option<String> }}",
+    "v_struct_ruled": '#[serde(rename_all = "PascalCase")] {N} {{ first_field: u32, other_one: bool }}',
+    "v_renamed": '#[serde(rename = "wire_of_{N}")] {N}(bool)',
+    "v_skip": "#[serde(skip)] {N}(u32)",
+    "v_vec": "{N}(Vec<Option<u32>>)",
+    "v_struct_cont": "{N} {{ list_of: Vec<String>, map_of: HashMap<String, u32>, #[serde(default)] with_default: u32 }}",
+    "v_struct_renamed_field": '{N} {{ #[serde(rename = "explicit-key")] first_field: u32, plain_one: String }}',
+}
+V_SUBJECT, V_BEFORE, V_AFTER = "TheSubject", "Aaa", "Zzz"
+
+
+def variant_program(c):
+    vs = []
+    if c["before"] != "none":
+        vs.append(VARIANT_MENU[c["before"]].format(N=V_BEFORE))
+    vs.append(VARIANT_MENU[c["item"]].format(N=V_SUBJECT))
+    if c["after"] != "none":
+        vs.append(VARIANT_MENU[c["after"]].format(N=V_AFTER))
+    extra = (f', rename_all = "{c["rule"]}"' if c["rule"] != "none" else "") + (f', rename_all_fields = "{c["frule"]}"' if c["frule"] != "none" else "")
+    return f'#[typeshare]\n#[serde(tag = "t", content = "c"{extra})]\npub enum Host {{\n' + "".join(f"    {v},\n" for v in vs) + "}\n"
+
+
+def variant_facet(lang, obs, c, which):
+    d = observe.find_def(obs, "Host")
+    if not d or d.get("kind") not in ("union", "enum"):
+        return None
+    vs = d.get("variants") or []
+    k = 1 if c["before"] not in ("none", "v_skip") else 0          # position of the subject among the generated variants
+    if k >= len(vs):
+        return "<no such variant>"
+    v = vs[k]
+    ms = None
+    if c["item"].startswith("v_struct"):
+        ms = observe.struct_variant_members(lang, obs, ["Host"], V_SUBJECT, v.get("wire"))
+        if ms is None:
+            ms = "<no members found>"
+    mem = lambda f: ms if isinstance(ms, str) else [f(m) for m in (ms or [])]
+    if which == "wires":
+        return scrub({"wires": v.get("wires") or [v.get("wire")]})
+    if which == "keys":
+        return scrub({"members": mem(lambda m: m.get("key"))})
+    if which == "optional":
+        return scrub({"payload": bool(v.get("optional")), "members": mem(lambda m: bool(m.get("optional")))})
+    if which == "types":
+        return scrub({"payload": v.get("ty"), "members": mem(lambda m: m.get("ty"))})
+    raise ValueError(which)
+
+
+def run_variants(chk, which):
+    """which: wires | keys | optional | types. MC_Variants x 6 languages through the library; the subject variant's facet with sibling
+    variants is compared (Trace_Compose, Compose!Independent) with its facet as the enum's only variant."""
+    res = common.run_tlc("MC_Variants", cfg="MC_Variants", workers=2, timeout=300)
+    chk.add_tlc("MC_Variants", res)
+    cases = res.replays
+    if not cases:
+        raise ToolError("MC_Variants produced no cases")
+    unknown = {c[k] for c in cases for k in ("item", "before", "after")} - set(VARIANT_MENU) - {"none"}
+    if unknown:
+        raise ToolError(f"no rendering for variants {unknown}")
+    srcs = [variant_program(c) for c in cases]
+    results = observe.generate(srcs, mixed=False)
+    alone = {(c["item"], c["rule"], c["frule"]): per for c, per in zip(cases, results) if c["before"] == "none" and c["after"] == "none"}
+    events, meta = [], []
+    for c, per, src in zip(cases, results, srcs):
+        if c["before"] == "none" and c["after"] == "none":
+            continue
+        for lang in common.LANGS:
+            r, r0 = per[lang], alone.get((c["item"], c["rule"], c["frule"]), {}).get(lang)
+            if r0 is None or r["status"] != "ok" or r0["status"] != "ok":
+                continue          # refusals / panics / unreadable files: C03 / C07 / C08 / C10
+            a = variant_facet(lang, r0["obs"], dict(c, before="none", after="none"), which)
+            if a is None or a == "<no such variant>":
+                chk.extra["variants_subject_not_found_alone"] = chk.extra.get("variants_subject_not_found_alone", 0) + 1
+                continue
+            t = variant_facet(lang, r["obs"], c, which)
+            events.append({"lang": lang, "item": c["item"], "alone": a, "together": t if t is not None else "<enum not found>"})
+            meta.append((lang, c, src))
+    if not events:
+        raise ToolError("Variants: no program was generated")
+    ok, matched, tres = common.trace_validate("Trace_Compose", events, timeout=600)
+    chk.add_tlc(f"Trace_Compose[variants,{which}]", tres)
+    if matched != len(events):
+        raise ToolError(f"Trace_Compose consumed {matched}/{len(events)}")
+    for b in tres.bad:
+        lang, c, src = meta[b - 1]
+        e = events[b - 1]
+        where = "+".join(x for x in ("after-" + c["before"] if c["before"] != "none" else "", "before-" + c["after"] if c["after"] != "none" else "") if x)
+        chk.mismatch(f"{chk.pid}/{lang}/variants/{c['item']}/{where}/{which}-depend-on-sibling-variants",
+                     f"{lang}: the {which} generated for variant {c['item']} (enum rename_all {c['rule']}, rename_all_fields {c['frule']}) differ between the enum with this variant alone "
+                     f"and with sibling variants (before: {c['before']}, after: {c['after']}): alone {str(e['alone'])[:200]} / together {str(e['together'])[:200]}",
+                     {"variants": c, "lang": lang, "src": src}, e["alone"], e["together"])
+    chk.traces += len(events) - len(tres.bad)
+    for lang, c, _ in meta:
+        chk.judged((lang, "variants", which, c["item"], c["before"], c["after"], c["rule"], c["frule"]))
+    chk.extra["variants_events"] = len(events)
+
+
 def replay(chk, rec, which):
+    if "variants" in rec.get("case", {}):
+        run_variants(chk, which)
+        chk.mismatches = {k: v for k, v in chk.mismatches.items() if k == rec["signature"]}
+        return
     if "members" in rec.get("case", {}):
         run_members(chk, which)
         chk.mismatches = {k: v for k, v in chk.mismatches.items() if k == rec["signature"]}
